@@ -95,6 +95,36 @@ def run(case, tag):
         elif k == 'clear':
             clear_registry()
             log_visible_from[0] = len(log)
+        elif k == 'qtake':
+            # an abandoned no-domain query: k results, then the iterator is closed (or `the` raising on the second result)
+            K = classes[op[1]]
+            idx = {id(o): i for i, o in enumerate(log)}
+            if op[3] == 'the':
+                from entity_query_language import the
+                from entity_query_language.failures import MultipleSolutionFound, NoSolutionFound
+                with symbolic_mode():
+                    q = the(entity(let(K)))
+                try:
+                    r = q.evaluate()
+                    res = [idx.get(id(r), 'u')]
+                except MultipleSolutionFound:
+                    res = ['many']
+                except NoSolutionFound:
+                    res = []
+            else:
+                with symbolic_mode():
+                    q = an(entity(let(K)))
+                it = q.evaluate()
+                found = []
+                try:
+                    for _ in range(op[2]):
+                        try:
+                            found.append(next(it))
+                        except StopIteration:
+                            break
+                finally:
+                    it.close()
+                res = [idx.get(id(o), 'u') for o in found]
         elif k == 'query':
             K = classes[op[1]]
             with symbolic_mode():
